@@ -94,8 +94,8 @@ vars == <<submitted, delivered, sender, receiver, netD, netA, faults>>
 Slots == 0..(PW - 1)
 NoEntry == [ch |-> 0, cpl |-> 0, wpl |-> 0, uid |-> 0]
 
-Init ==
-    /\ submitted = <<>> /\ delivered = <<>>
+InitWith(subs) ==
+    /\ submitted = subs /\ delivered = <<>>
     /\ sq = <<>> /\ epoch = 0 /\ sBase = PBase0 /\ sNext = PBase0 /\ sWin = <<>>
     /\ sWinParent = None /\ sChParent = [c \in Chans |-> None] /\ sAlloc = 0 /\ sTotal = 0
     /\ pendq = <<>> /\ resDue = <<>> /\ resNew = <<>>
@@ -105,6 +105,8 @@ Init ==
     /\ entry = [s \in Slots |-> NoEntry] /\ entryFlag = {} /\ dataFlag = {}
     /\ chBase = [c \in Chans |-> None] /\ chCount = [c \in Chans |-> 0] /\ chReady = {} /\ winReady = FALSE
     /\ netD = EmptyBag /\ netA = EmptyBag /\ faults = Faults
+
+Init == InitWith(<<>>)
 
 \* ================================================================================ application
 AppSend(c, m, nf) ==
